@@ -15,6 +15,17 @@ from amaranth import *
 from ..harness import Harness
 from ..engine import Query
 
+# FINDINGS
+#  fixed  /repo 5a01b7d "fix: a warm reset always takes the LTSSM to Rx.Detect.Reset"
+#         handle_warm_resets() was the first statement of every state, so any later transition of the same cycle
+#         (burst complete, TS detected, link recovery trigger, idle handshake complete, timeout) overrode it, and
+#         Rx.Detect.Active / Rx.Detect.Quiet / Polling.LFPS ignored resets altogether; in_usb_reset is a one-cycle strobe
+#         (lfps_reset_detected), so a coinciding warm reset was lost and link_ready could rise one cycle after a reset.
+#         Caught directly by `reset_removes_and_blocks_ready`; as consequences also by all `ready_needs_*`,
+#         `timeout_ts2_substates_12ms` and `scrambling_in_u0` (the ghost forgets training at a reset, the DUT did not).
+#  noted  (not asserted) in Polling.Idle / Recovery.Idle / Hot Reset.Exit a timeout in the same cycle as the completed idle
+#         handshake wins although entering_u0 is pulsed; `ready_announced_by_entering_u0` only checks the other direction.
+
 PROP = "C41"
 ENCODED = [
     "luna/gateware/usb/usb3/link/ltssm.py: LTSSMController.elaborate (FSM transitions, transition_on_timeout, "
@@ -34,9 +45,9 @@ ASSUMPTIONS = [
     "SS.Inactive.Quiet; polling LFPS sent = Polling.LFPS",
     "a state with timeout T cycles may be occupied for T+1 cycles (counter compared after the increment)",
 ]
-BOUNDS = "BMC from reset, all inputs free: 1 kHz (12 ms = 12, 2 ms = 2 cycles) K=22 (quick) / 32 (thorough); 500 Hz (6 / 1 " \
-         "cycles) K=24 / 38; 1 kHz strict K=18 / 28; 100 Hz (2 / 1 / 36 cycles, reaches the 360 ms Polling.LFPS timeout) K=46 with the training " \
-         "inputs quiet; loosen_requirements True (default) and False"
+BOUNDS = "BMC from reset, all inputs free.  quick: 1 kHz (12 ms = 12, 2 ms = 2 cycles), loosened, K=21.  thorough: 1 kHz K=30; " \
+         "500 Hz (6 / 1 cycles) K=34; 1 kHz with loosen_requirements=False K=26; 100 Hz (2 / 1 / 36 cycles, reaches the 360 ms " \
+         "Polling.LFPS timeout) K=50 with the training inputs quiet"
 OUTSIDE = "the synthetic *.Configuration.Exit states and Loopback / SS.Disabled have no timeout (nothing to check); the " \
           "360 ms timeout is only reached in a restricted layer; histories longer than K; the production frequency"
 
@@ -207,28 +218,45 @@ class LtssmHarness(Harness):
         return d
 
 
+GROUPS = {
+    "training": ["ready_needs_partner_detected", "ready_needs_polling_lfps", "ready_needs_ts1_exchange",
+                 "ready_needs_ts2_exchange_since_entry", "ready_needs_idle_handshake_since_entry",
+                 "ready_announced_by_entering_u0"],
+    "reset_timeouts": ["reset_removes_and_blocks_ready", "timeout_ts1_substates_12ms", "timeout_ts2_substates_12ms",
+                       "timeout_idle_substates_2ms", "timeout_quiet_substates_12ms", "timeout_polling_lfps_360ms"],
+    "u0_outputs": ["scrambling_in_u0", "no_electrical_idle_in_u0"],
+}
+COVERS = ["link_ready", "link_ready_after_recovery", "link_ready_after_hot_reset", "reset_while_ready",
+          "ts1_substate_times_out", "ts2_substate_times_out", "idle_substate_times_out", "quiet_substate_times_out",
+          "ready_unscrambled_by_partner", "ready_unscrambled_by_us", "ready_scrambled"]
+
+
 def queries(tier):
+    """One process per assertion *family* (split=False): the unrolling of the LTSSM dominates, so it is shared."""
     deep = tier == "thorough"
     qs = []
-    no_lfps_cover = ["link_ready", "link_ready_after_recovery", "link_ready_after_hot_reset", "reset_while_ready",
-                     "ts1_substate_times_out", "ts2_substate_times_out", "idle_substate_times_out", "quiet_substate_times_out",
-                     "ready_unscrambled_by_partner", "ready_unscrambled_by_us", "ready_scrambled"]
-    cfgs = [("1k", 1000, True, 22, 32), ("500", 500, True, 24, 38), ("1k_strict", 1000, False, 18, 28)]
-    for tag, f, loosen, kq, kt in cfgs:
+    # (tag, frequency, loosen_requirements, K)
+    cfgs = [("1k", 1000, True, 21)] if not deep else \
+           [("1k", 1000, True, 30), ("500", 500, True, 34), ("1k_strict", 1000, False, 26)]
+    for tag, f, loosen, K in cfgs:
         fac = (lambda f=f, loosen=loosen: LtssmHarness(f, loosen))
-        covers = no_lfps_cover if tag != "1k_strict" else ["link_ready", "reset_while_ready", "ready_scrambled"]
-        qs.append(Query(f"bmc_{tag}", fac, kt if deep else kq, timeout=900, covers=covers,
-                        desc=f"LTSSM at {f} Hz, loosen_requirements={loosen}: every input free every cycle"))
+        desc = f"LTSSM at {f} Hz, loosen_requirements={loosen}: every input free every cycle"
+        for g, names in GROUPS.items():
+            qs.append(Query(f"bmc_{tag}_{g}", fac, K, timeout=900, asserts=names, covers=[], split=False, desc=desc))
+        covers = COVERS if tag != "1k_strict" else ["link_ready", "reset_while_ready", "ready_scrambled"]
+        qs.append(Query(f"cover_{tag}", fac, K if tag != "1k_strict" else 20, timeout=900, asserts=[], covers=covers,
+                        split=False, desc=desc + " (reachability twins)"))
         qs.append(Query(f"cosim_{tag}", fac, 0, kind="cosim", cosim_cycles=400 if not deep else 3000))
-    # 360 ms timeout of Polling.LFPS: 36 cycles at 100 Hz; the partner stays silent (restricted layer)
-    fac = lambda: LtssmHarness(100, True)
-    quiet = {n: 0 for n in ("ts1_detected", "inverted_ts1_detected", "ts2_detected", "hot_reset_requested",
-                            "loopback_requested", "no_scrambling_requested", "trigger_link_recovery")}
-    qs.append(Query("bmc_100_lfps", fac, 46 if not deep else 60, timeout=900, layer=quiet,
-                    asserts=["timeout_polling_lfps_360ms", "timeout_quiet_substates_12ms", "reset_removes_and_blocks_ready",
-                             "ready_needs_polling_lfps"],
-                    covers=["polling_lfps_times_out", "quiet_substate_times_out"],
-                    desc="layer: no training sets / requests from the partner; LTSSM at 100 Hz reaches the 360 ms (36 "
-                         "cycle) Polling.LFPS timeout; reset, PHY, rx detection and LFPS inputs free"))
-    qs.append(Query("cosim_100", fac, 0, kind="cosim", cosim_cycles=400 if not deep else 3000))
+    if deep:
+        # 360 ms timeout of Polling.LFPS: 36 cycles at 100 Hz; the partner stays silent (restricted layer)
+        fac = lambda: LtssmHarness(100, True)
+        quiet = {n: 0 for n in ("ts1_detected", "inverted_ts1_detected", "ts2_detected", "hot_reset_requested",
+                                "loopback_requested", "no_scrambling_requested", "trigger_link_recovery")}
+        qs.append(Query("bmc_100_lfps", fac, 50, timeout=900, layer=quiet, split=False,
+                        asserts=["timeout_polling_lfps_360ms", "timeout_quiet_substates_12ms", "reset_removes_and_blocks_ready",
+                                 "ready_needs_polling_lfps"],
+                        covers=["polling_lfps_times_out", "quiet_substate_times_out"],
+                        desc="layer: no training sets / requests from the partner; LTSSM at 100 Hz reaches the 360 ms (36 "
+                             "cycle) Polling.LFPS timeout; reset, PHY, rx detection and LFPS inputs free"))
+        qs.append(Query("cosim_100", fac, 0, kind="cosim", cosim_cycles=3000))
     return qs
